@@ -78,7 +78,11 @@ def run(run: common.Run):
         rv[rng.randrange(ref.h), rng.randrange(ref.w)] = False
         # (every other named reference uses names with underscores, as Landsat / geedim bands have: SR_B4)
         descr = [(f'SR_B{k + 1}' if case['i'] % 2 else f'REF{k + 1}') for k in range(case['nrb'])] if case['ref_descr'] else None
-        pair = fusion.write_pair(tmp, 'c14', src, ref, s, r, sv, rv, ref_kw=dict(descriptions=descr))
+        # (every third reference carries the NAME / ID / ABBREV band tags of a catalogued product: fuse copies them to the parameter
+        # bands of the matched pair, each with its own parameter's name appended)
+        rtags = [dict(NAME=f'Band {k + 1} reflectance', ID=f'b{k + 1}', ABBREV=f'R{k + 1}', other='x') for k in range(case['nrb'])] \
+            if case['i'] % 3 == 1 else None
+        pair = fusion.write_pair(tmp, 'c14', src, ref, s, r, sv, rv, ref_kw=dict(descriptions=descr, band_tags=rtags))
         proc_ref = (case['proc'] == 'ref') or (case['proc'] == 'auto' and src.px <= ref.px)
         # the in-painting threshold is a configuration value that is recorded in the parameter image and read back by stats:
         # default, switched off (None), zero, and a larger one
@@ -132,6 +136,15 @@ def run(run: common.Run):
             got = [multi.param_descriptions[k], multi.param_descriptions[nb + k], multi.param_descriptions[2 * nb + k]]
             if not bad and got != exp_descr:
                 bad = f'descriptions of pair {k + 1}: {got}, expected {exp_descr}'
+            if not bad and rtags:
+                run.hist['reference with NAME / ID / ABBREV band tags'] += 1
+                for j, sfx in enumerate(('GAIN', 'OFFSET', 'R2')):
+                    bt = multi.param_band_tags[j * nb + k]
+                    want_t = {kk: f'{vv.upper()} {sfx}' for kk, vv in rtags[rbs[k] - 1].items() if kk in ('NAME', 'ID', 'ABBREV')}
+                    got_t = {kk: bt.get(kk) for kk in want_t}
+                    if got_t != want_t:
+                        bad = f'band tags of the {sfx} band of pair {k + 1}: {got_t}, expected {want_t}'
+                        break
             # source-grid identity
             if not bad and multi.proc_crs == 'src':
                 g, o = multi.param[k], multi.param[nb + k]
